@@ -77,19 +77,13 @@ func checkDirectFieldRanges(c *C, list [][2]int32, extra []int32, isMessageSet b
 		}
 	}
 	valid := p.CheckValid(isMessageSet) == nil
-	// CheckValid accepts exactly the well-formed lists with valid end points. (A stored end of
-	// MinInt32 wraps to End() = MaxInt32; the model mirrors that, the independent predicate below
-	// is only evaluated when no end wraps.)
-	wraps := false
+	// CheckValid accepts exactly the well-formed lists (start < end on the stored pair, disjoint) with
+	// valid end points — including lists with a stored end of MinInt32, which must be rejected.
+	c.Check(valid == (wellFormed && numsOK), fmt.Sprintf("FieldRanges.CheckValid nil=%v, expected %v (non-empty, disjoint, valid numbers)", valid, wellFormed && numsOK), in, "")
 	for _, r := range list {
 		if r[1] == math.MinInt32 {
-			wraps = true
+			c.Hist("direct-franges:stored-end-minint32")
 		}
-	}
-	if !wraps {
-		c.Check(valid == (wellFormed && numsOK), fmt.Sprintf("FieldRanges.CheckValid nil=%v, expected %v (non-empty, disjoint, valid numbers)", valid, wellFormed && numsOK), in, "")
-	} else {
-		c.Hist("direct-franges:end-wraps")
 	}
 	if c.HasModel() {
 		ms := 0
@@ -275,7 +269,6 @@ func checkDirectList(c *C, typ string, elems []directElm) {
 		for i := range fs {
 			p.List = append(p.List, &fs[i])
 		}
-		w.propertyOff = true // artificial duplicates of names/numbers: compare with the model only
 		w.fieldLookups(at, p, true)
 	case "EnumValues":
 		p := &filedesc.EnumValues{List: make([]filedesc.EnumValue, n)}
@@ -483,7 +476,7 @@ func streamDirect(c *C) {
 	checkDirectFieldNumbers(c, nil)
 	checkDirectFieldNumbers(c, []int32{3, 1, 3})
 
-	n := c.N(1500, 60000)
+	n := c.N(6000, 120000)
 	for i := 0; i < n && !c.Failed(); i++ {
 		switch c.Rand.Intn(8) {
 		case 0, 1:
